@@ -15,6 +15,7 @@ import (
 	"github.com/wrgl/wrgl/pkg/objects"
 	"github.com/wrgl/wrgl/pkg/progress"
 	"github.com/wrgl/wrgl/pkg/sorter"
+	"github.com/wrgl/wrgl/pkg/verifhook"
 )
 
 type Merger struct {
@@ -116,6 +117,7 @@ func (m *Merger) mergeTables(colDiff *diff.ColDiff, mergeChan chan<- *Merge, err
 			}
 			continue
 		}
+		verifhook.Yield("merger.afterRecv")
 		d := recv.Interface().(*objects.Diff)
 		pkSum := string(d.PK)
 		if m, ok := merges[pkSum]; !ok {
@@ -153,6 +155,7 @@ func (m *Merger) mergeTables(colDiff *diff.ColDiff, mergeChan chan<- *Merge, err
 			errChan <- fmt.Errorf("resolve error: %v", err)
 			return
 		}
+		verifhook.Yield("merger.sendMerge")
 		mergeChan <- obj
 	}
 }
